@@ -9,7 +9,10 @@ VARIANTS = {
     # rendezvous rotation on the virtual clock
     "vtime": {"rewrite": [["pkg/rendezvous/rotation.go", "time"], ["pkg/rendezvous/rendezvous.go", "time"],
                           # the head-exchange marshaler compiled on its own against the rendezvous package on the virtual clock
-                          {"src": "message_marshaler.go", "mode": "copy", "dst": "internal/zzverif/mm/message_marshaler.go", "pkg": "mm"}]},
+                          {"src": "message_marshaler.go", "mode": "copy", "dst": "internal/zzverif/mm/message_marshaler.go", "pkg": "mm"},
+                          # the swiper (watch / announce loops around the rotation points) compiled on its own on the virtual clock,
+                          # context deadlines included
+                          {"src": "tinder_swiper.go", "mode": "time+ctx", "dst": "internal/zzverif/sw/tinder_swiper.go", "pkg": "sw"}]},
     # secret store with its mutexes visible to the scheduler (datastore operations are points via the harness datastore)
     "sched-secret": {"rewrite": ["pkg/secretstore/*.go"]},
     # notify primitive and its three clients; the connectedness manager and the peer cache are compiled on their
@@ -147,6 +150,7 @@ CHECKS = {
         parts=[
             dict(name="rotation", harness="pkg__rendezvous", run="TestVerifC17"),
             dict(name="marshaler", harness="internal__zzverif__mm", run="TestVerifC17MM"),
+            dict(name="swiper", harness="internal__zzverif__sw", run="TestVerifC17SW"),
         ],
         technique="explicit-state BFS over operation histories of two real RotationInterval instances on a virtual clock (register / resolve / exchange rotation values / advance time across period and grace boundaries), against an independent HMAC reference; plus an exhaustive grid for the pure functions",
         rule="states = distinct canonical (virtual time, both caches, pending timers, reference bookkeeping); successors by replaying the history on fresh objects + one real call; intervals 1 s, 2 s, 1 h; classes = (operation, expectation, outcome)",
